@@ -362,11 +362,15 @@ def _real_outline(prog):
     except fir.Unsupported as e:
         raise ValueError(f'request program is outside FIR after parsing: {e.kind}') from e
     try:
+        text0 = fgen(sf.ir)
+    except Exception:
+        text0 = None
+    try:
         ExtractTransformation(extract_internals=False, outline_regions=True).transform_file(sf)
         text = fgen(sf.ir)
     except Exception as e:
         raise TransformError(f'{type(e).__name__}: {str(e)[:120]}') from e
-    return fir.export_unit(sf, main=fir.prog_main(prog)), text
+    return fir.export_unit(sf, main=fir.prog_main(prog)), (text, text0)
 
 
 # ---------------------------------------------------------------- strict INTENT(OUT) interpreter
@@ -620,7 +624,7 @@ class C33(Prop):
 
     # ---- generation
     def gen(self, rng, tier):
-        n = {'quick': 40, 'thorough': 420, 'search': 150}.get(tier, 40)
+        n = {'quick': 40, 'thorough': 250, 'search': 120}.get(tier, 40)
         n_in = 2 if tier == 'quick' else 3
         for j in range(n):
             base = fir.gen_program(rng, GEN_CFG)
@@ -629,10 +633,34 @@ class C33(Prop):
             gf = tier == 'thorough' and j % 4 == 0
             regions, _ = find_regions(prog)
             yield Case([A('outline'), prog, inputs, A('gf' if gf else 'nogf')], stream='outline', nontrivial=bool(regions))
-        n_ext = {'quick': 6, 'thorough': 40, 'search': 20}.get(tier, 6)
+        n_ext = {'quick': 6, 'thorough': 30, 'search': 12}.get(tier, 6)
         for j in range(n_ext):
             src, ref = extract_source(rng)
             yield Case([A('extract'), src, [ref], A('file' if j % 6 == 5 else 'mod')], stream='extract')
+
+    def shrink_candidates(self, req):
+        """structure-preserving shrinking: drop one non-marker statement of the main unit, or one input set"""
+        import copy
+        try:
+            kind, prog, inputs, flag = decode(req)
+        except Exception:
+            return
+        if kind != 'outline':
+            return
+        for k in range(len(inputs)):
+            if len(inputs) > 1:
+                yield [req[0], prog, inputs[:k] + inputs[k + 1:]] + list(req[3:])
+        n = sum(len(l) for l, _ in _lists(main_unit(prog)[4]))
+        for k in range(n):
+            p2 = copy.deepcopy(prog)
+            j = k
+            for l, _ in _lists(main_unit(p2)[4]):
+                if j < len(l):
+                    if start_of(l[j]) is None and not is_end(l[j]):
+                        del l[j]
+                        yield [req[0], p2, inputs] + list(req[3:])
+                    break
+                j -= len(l)
 
     # ---- real code
     def impl(self, req):
@@ -694,8 +722,10 @@ class C33(Prop):
                     fails.append(Failure('outline: under the standard\'s INTENT(OUT) rule (actual becomes undefined at the call) '
                                          f'the transformed program differs: {d}', K_OUT if K_OUT in cs else None))
         if flag == 'gf' and runs:
+            text, text0 = text
             err = fir.gfortran_syntax_check(text)
-            if err:
+            if err and text0 is not None and fir.gfortran_syntax_check(text0) is None:
+                # (when gfortran already rejects fgen's text of the UNTRANSFORMED routine the defect is the printer's: C06)
                 return [Failure(f'outline: gfortran rejects the transformed source printed by fgen: {err[:160]}', cls)]
             items = []
             for inp in runs:
